@@ -281,7 +281,7 @@ class Session:
                     st, dt, backend = "unsat", dt + dt2, "cvc5(after z3 unknown)"
             if st == "unsat":
                 # vacuity canary: the hypotheses alone must be satisfiable
-                cst, _, cdt, _ = _solve_z3(b, min(timeout_ms, 10_000))
+                cst, _, cdt, _ = _solve_z3(b, min(timeout_ms, 3_000))
                 canary = {"sat": "sat", "unsat": "UNSAT"}.get(cst, "unknown")
                 if canary == "UNSAT":
                     return self._record(oid, "error", function=function, what=what, backend=backend,
